@@ -17,14 +17,24 @@ API (everything random derives from the rng passed in):
             | ("lit", python int/bool)  a JSON number / boolean
             | ("range", type or None, [(items, conds)])  a range table (every locale of such a key holds one, same count
               type); conds = list of ("exact", n) | ("bounds", lo|None, hi|None, hi_inclusive); [] = the fallback `_` (last arm)
-      PKey.range_type: None or "i32"/"i64"/"u32"/"f32"; count_of(key, a) is the count passed for assignment a
+            | ("plural", ordinal, {form: items})  `key_one`/`key_ordinal_one`... and `key_other` (always present); a plural key
+              is cardinal or ordinal in every locale that defines it
+            | ("plural", ordinal, {form: items}, target path)  written as `$t(target, {"count": "{{ n }}"})`: the forms are the
+              target's forms in that locale with `{{ count }}` renamed to `{{ n }}` (the value after substitution); such a
+              key and its target are defined in every locale; PKey.count_name is then "n"
+      PKey.range_type: None or "i32"/"i64"/"u32"/"f32"; PKey.plural: None / "cardinal" / "ordinal";
+      PKey.assignments: how many argument assignments main runs (plural keys: one per count of PCOUNTS);
+      count_of(key, a) is the count passed for assignment a.  Plural keys are generated only when every locale's language
+      is one of LANGS (the languages whose CLDR rules are written out in Coq).
       `wide=True` adds keys with 27..80 top-level pieces (tuple chunking of fit_in_leptos_tuple).
   write_crate(dirpath, project, assignments=2) -> None
       Cargo.toml (same dependency features as harness/h_rt + interpolate_display, own [workspace], profile of the harness
       workspace), locales/**.json, src/main.rs.  main prints one line per (key, assignment, locale, flavour):
       `<key id>\\t<assignment>\\t<locale>\\t<flavour>\\t<hex of the UTF-8 output>`; view flavours print raw `to_html()`.
   build_crate(dirpath, timeout) -> (exe or None, log tail)     cargo build --offline into the shared target dir
-  run_probe(exe, timeout) -> {(key id, assignment, locale): {flavour: text}}   view flavours canonicalised by canon_html
+  run_probe(exe, timeout) -> {(key id, assignment, locale): {flavour: text}}   view flavours canonicalised by canon_html;
+      the entry "__plural_oracle__" maps (locale, "cardinal"|"ordinal", count) to the category icu_plurals::PluralRules gives
+      (printed by the probe itself, independently of the generated code)
   env_of(key, assignment) -> {var name: value}   the argument values main passes (same table as the generated code)
   canon_html(s)   remove comments / data-hk / `<!>` markers and decode entities, as /repo/tests/common does
   VIEW_FLAVOURS   names of flavours that go through `IntoView::to_html`
@@ -71,6 +81,9 @@ def gen_items(rng, depth=0, maxn=4):
     return items
 
 
+LANGS = ["en", "fr", "ru", "ar", "pl", "ja", "cy", "he"]
+PCOUNTS = [0, 1, 2, 3, 5, 11, 21, 22, 100, 101]          # around the category changes of en/fr/ru/ar/pl, cardinal and ordinal
+FORMS = ["zero", "one", "two", "few", "many"]
 COUNTS = [0, 1, 2, 5, 7, 100]
 FCOUNTS = [0.0, 1.0, 2.5, 5.0, 7.0, 100.0]
 
@@ -120,6 +133,8 @@ def range_json(value):
 
 
 def count_of(key, a):
+    if key.plural:
+        return PCOUNTS[a % len(PCOUNTS)]
     tbl = FCOUNTS if key.range_type == "f32" else COUNTS
     return tbl[(a * 3 + key.id) % len(tbl)]
 
@@ -150,6 +165,8 @@ class PKey:
     def finish(self, rng):
         vs, cs = set(), set()
         self.range_type = None
+        self.plural = None
+        self.count_name = "count"
         for v in self.values.values():
             if v[0] in ("absent", "null"):
                 continue
@@ -159,9 +176,16 @@ class PKey:
                 self.range_type = v[1] or "i32"
                 for items, _ in v[2]:
                     names_of(items, vs, cs)
+            elif v[0] == "plural":
+                self.plural = "ordinal" if v[1] else "cardinal"
+                if len(v) > 3:
+                    self.count_name = "n"
+                for items in v[2].values():
+                    names_of(items, vs, cs)
         self.has_count_var = "count" in vs
-        if self.range_type:
-            vs.discard("count")           # the count is passed as the count, `{{ count }}` shows it
+        if self.range_type or self.plural:
+            vs.discard(self.count_name)   # the count is passed as the count, `{{ count }}` shows it
+        self.assignments = len(PCOUNTS) if self.plural else 2
         self.vars, self.comps = sorted(vs), sorted(cs)
         self.tags = {c: rng.choice(TAGS) for c in self.comps}
         kinds = set()
@@ -170,7 +194,7 @@ class PKey:
                 continue
             if v[0] == "lit":
                 kinds.add("bool" if isinstance(v[1], bool) else "int" if v[1] < 0 else "uint")
-            elif v[0] == "range":
+            elif v[0] in ("range", "plural"):
                 kinds.add("interp")
             elif all(it[0] == "T" for it in v[1]):
                 kinds.add("str")
@@ -181,6 +205,18 @@ class PKey:
 
 class Project:
     pass
+
+
+def _rename_count(items):
+    out = []
+    for it in items:
+        if it[0] == "V" and it[2] == "count":
+            out.append(("V", it[1], "n", it[3], it[4]))
+        elif it[0] == "C":
+            out.append(it[:4] + (_rename_count(it[4]),) + it[5:])
+        else:
+            out.append(it)
+    return out
 
 
 def effective_locale(project, key, loc):
@@ -201,6 +237,7 @@ def gen_project(rng, n_keys, locales, namespaces=None, wide=False, inherits=None
     p.locales = list(locales)
     p.namespaces = list(namespaces) if namespaces else None
     p.keys = []
+    with_plurals = all(l.split("-")[0] in LANGS for l in p.locales)
     groups = [()]
     for g in range(max(1, n_keys // 6)):
         parent = rng.choice(groups)
@@ -224,7 +261,16 @@ def gen_project(rng, n_keys, locales, namespaces=None, wide=False, inherits=None
                 if loc == p.locales[0]:
                     rty = rng.choice([None, None, "i64", "u32", "f32"])
                 k.values[loc] = ("range", rty, gen_arms(rng, rty))
-            elif wide and kind < 0.4:
+            elif with_plurals and kind < 0.46:
+                if loc == p.locales[0]:
+                    ordinal = rng.random() < 0.5
+                forms = {f: (gen_items(rng, 1, 3) or [("T", f)]) for f in FORMS if rng.random() < 0.45}
+                if rng.random() < 0.5:
+                    f = rng.choice(FORMS + ["other"])          # make sure the count is shown somewhere
+                    forms[f] = forms.get(f, []) + [("V", _w(rng), "count", _w(rng), None), ("T", " " + f)]
+                forms["other"] = forms.get("other") or gen_items(rng, 1, 3) or [("T", "other")]
+                k.values[loc] = ("plural", ordinal, forms)
+            elif wide and kind < 0.54:
                 n = rng.choice([26, 27, 28, 52, 53, 60, 80])
                 its = []
                 for j in range(n):
@@ -235,6 +281,24 @@ def gen_project(rng, n_keys, locales, namespaces=None, wide=False, inherits=None
             else:
                 k.values[loc] = ("str", gen_items(rng))
         p.keys.append(k)
+    # renamed counts: `$t(target, {"count": "{{ n }}"})` to a plural key outside any group; both stay defined everywhere
+    nogap = set()
+    if with_plurals:
+        for ordinal in (False, True):
+            t = PKey(len(p.keys), ((p.namespaces[0],) if p.namespaces else ()) + ("p%d" % len(p.keys),))
+            for loc in p.locales:
+                forms = {f: (gen_items(rng, 1, 2) or [("T", f)]) for f in FORMS if rng.random() < 0.5}
+                f = rng.choice(FORMS + ["other"])
+                forms[f] = forms.get(f, []) + [("V", _w(rng), "count", _w(rng), None), ("T", " " + f)]
+                forms["other"] = forms.get("other") or [("T", "other")]
+                t.values[loc] = ("plural", ordinal, forms)
+            p.keys.append(t)
+            k = PKey(len(p.keys), t.path[:-1] + ("r%d" % t.id,))
+            for loc in p.locales:
+                v = t.values[loc]
+                k.values[loc] = ("plural", v[1], {f: _rename_count(items) for f, items in v[2].items()}, t.path)
+            p.keys.append(k)
+            nogap.update({t.id, k.id})
     if gaps and len(p.locales) > 1:
         # whole sub-key groups missing in a locale (absent, or written as null)
         gpaths = sorted({k.path[:m] for k in p.keys for m in range(2 if p.namespaces else 1, len(k.path))})
@@ -244,6 +308,8 @@ def gen_project(rng, n_keys, locales, namespaces=None, wide=False, inherits=None
                 if rng.random() < 0.12:
                     gone[(loc, g)] = rng.random() < 0.5
         for k in p.keys:
+            if k.id in nogap:
+                continue
             for loc in p.locales[1:]:
                 hit = [g for (l, g) in gone if l == loc and k.path[:len(g)] == g]
                 if hit:
@@ -265,8 +331,8 @@ def gen_project(rng, n_keys, locales, namespaces=None, wide=False, inherits=None
 
 def env_of(key, a):
     env = {v: VALS[(a * 3 + j + key.id) % len(VALS)] for j, v in enumerate(key.vars)}
-    if key.range_type:
-        env["count"] = count_display(count_of(key, a))
+    if key.range_type or key.plural:
+        env[key.count_name] = count_display(count_of(key, a))
     return env
 
 
@@ -286,6 +352,15 @@ def _tree(project, loc, ns):
         d = root
         for seg in path[:-1]:
             d = d.setdefault(seg, {})
+        if v[0] == "plural" and len(v) > 3:
+            t = v[3]
+            target = (t[0] + ":" + ".".join(t[1:])) if project.namespaces else ".".join(t)
+            d[path[-1]] = "$t(%s, %s)" % (target, json.dumps({"count": "{{ n }}"}))
+            continue
+        if v[0] == "plural":
+            for form, items in v[2].items():
+                d["%s%s_%s" % (path[-1], "_ordinal" if v[1] else "", form)] = parsegen.print_items(items)
+            continue
         d[path[-1]] = (None if v[0] == "null" else v[1] if v[0] == "lit" else range_json(v) if v[0] == "range"
                        else parsegen.print_items(v[1]))
     for (l, g) in project.group_null:
@@ -306,8 +381,8 @@ def _tree(project, loc, ns):
 def _args(key, style):
     """macro arguments of a call: variables from the local bindings, components per style"""
     out = ["%s = v_%s" % (v, v) for v in key.vars]
-    if key.range_type:
-        out.append("count = c_count" if style == "string" else "count = move || c_count")
+    if key.range_type or key.plural:
+        out.append("%s = c_count" % key.count_name if style == "string" else "%s = move || c_count" % key.count_name)
     for c in key.comps:
         tag = key.tags[c]
         if style == "string":
@@ -325,6 +400,9 @@ def _key_fn(project, key):
     L.append("fn k%d(i18n: I18nContext<Locale>, loc: Locale, a: usize) {" % key.id)
     for j, v in enumerate(key.vars):
         L.append("    let v_%s: &'static str = VALS[(a * 3 + %d + %d) %% VALS.len()];" % (v, j, key.id))
+    L.append("    if a >= %d { return; }" % key.assignments)
+    if key.plural:
+        L.append("    let c_count: i32 = [%s][a %% %d];" % (", ".join(str(x) for x in PCOUNTS), len(PCOUNTS)))
     if key.range_type:
         tbl = FCOUNTS if key.range_type == "f32" else COUNTS
         L.append("    let c_count: %s = [%s][(a * 3 + %d) %% %d];" % (key.range_type, ", ".join(_num(x) for x in tbl), key.id, len(tbl)))
@@ -379,6 +457,7 @@ leptos_i18n::load_locales!();
 use i18n::*;
 
 const VALS: [&str; %d] = %s;
+const PCOUNTS: [i32; %d] = %s;
 
 fn put(id: usize, a: usize, loc: Locale, fl: &str, s: String) {
     let h: String = s.bytes().map(|b| format!("{:02x}", b)).collect();
@@ -406,6 +485,23 @@ fn main() {
         let opts = I18nContextOptions::<Locale>::default().cookie_options(cookie_options).ssr_lang_header_getter(lang);
         let i18n: I18nContext<Locale> = init_i18n_context_with_options(opts);
         provide_context(i18n);
+        // what icu_plurals itself says, for the check's oracle cross-check (does not go through the generated code)
+        {
+            use leptos_i18n::reexports::icu::plurals::{PluralCategory, PluralRuleType, PluralRules};
+            for loc in Locale::get_all().iter().copied() {
+                for (rname, rt) in [("cardinal", PluralRuleType::Cardinal), ("ordinal", PluralRuleType::Ordinal)] {
+                    if let Ok(rules) = PluralRules::try_new(&loc.as_icu_locale().into(), rt) {
+                        for n in PCOUNTS {
+                            let c = match rules.category_for(n) {
+                                PluralCategory::Zero => "zero", PluralCategory::One => "one", PluralCategory::Two => "two",
+                                PluralCategory::Few => "few", PluralCategory::Many => "many", PluralCategory::Other => "other",
+                            };
+                            println!("#P\t{}\t{}\t{}\t{}", loc, rname, n, c);
+                        }
+                    }
+                }
+            }
+        }
         for loc in Locale::get_all().iter().copied() {
             i18n.set_locale(loc);
             tick().await;
@@ -429,6 +525,9 @@ def write_crate(d, project, assignments=2, name="h_probe"):
                 json.dump(_tree(project, loc, ns), fh, ensure_ascii=False, indent=1)
     htoml = open(os.path.join(core.HARNESS, "h_rt", "Cargo.toml")).read()
     deps = htoml[htoml.index("[dependencies]"):]
+    # mutation testing only: build the probe against a modified scratch copy of /repo (never set by ./check users)
+    if os.environ.get("VERIF_PROBE_REPO"):
+        deps = deps.replace('"/repo/', '"%s/' % os.environ["VERIF_PROBE_REPO"].rstrip("/"))
     wtoml = open(os.path.join(core.HARNESS, "Cargo.toml")).read()
     profile = wtoml[wtoml.index("[profile.dev]"):]
     toml = ('[package]\nname = "%s"\nversion = "0.1.0"\nedition = "2021"\n\n[workspace]\n\n%s\n%s\n'
@@ -441,9 +540,10 @@ def write_crate(d, project, assignments=2, name="h_probe"):
     with open(os.path.join(d, "Cargo.toml"), "w") as fh:
         fh.write(toml)
     shutil.copy(os.path.join(core.HARNESS, "Cargo.lock"), os.path.join(d, "Cargo.lock"))
-    src = MAIN_HEAD % (len(VALS), "[" + ", ".join(json.dumps(v, ensure_ascii=False) for v in VALS) + "]")
+    src = MAIN_HEAD % (len(VALS), "[" + ", ".join(json.dumps(v, ensure_ascii=False) for v in VALS) + "]",
+                       len(PCOUNTS), "[" + ", ".join(str(x) for x in PCOUNTS) + "]")
     src += "\n\n".join(_key_fn(project, k) for k in project.keys)
-    src += MAIN_TAIL % (assignments, "\n".join("                k%d(i18n, loc, a);" % k.id for k in project.keys))
+    src += MAIN_TAIL % (max([assignments] + [k.assignments for k in project.keys]), "\n".join("                k%d(i18n, loc, a);" % k.id for k in project.keys))
     with open(os.path.join(d, "src", "main.rs"), "w") as fh:
         fh.write(src)
 
@@ -471,8 +571,12 @@ def run_probe(exe, timeout=600):
     rc, out, err = core.sh("%s 2>/dev/null" % exe, timeout=timeout)
     if rc != 0:
         raise core.Infra("probe binary failed (rc %s): %s" % (rc, out[-300:]))
-    res = {}
+    res = {"__plural_oracle__": {}}
     for line in out.splitlines():
+        if line.startswith("#P\t"):
+            _, loc, rname, n, cat = line.split("\t")
+            res["__plural_oracle__"][(loc, rname, int(n))] = cat
+            continue
         kid, a, loc, fl, hx = line.split("\t")
         text = bytes.fromhex(hx).decode()
         if fl.split(":")[-1] in VIEW_FLAVOURS:
